@@ -34,6 +34,15 @@ ANGLE = {
           "a fallback value taken on an exceptional path (an except clause, a NaN / None / empty result replaced by a default), "
           "a result computed for the wrong one of two similar inputs (reduced versus original curve, x versus index). Again it "
           "must look like a commit a reviewer could approve, and must need something specific to manifest."),
+    "9": ("Considered covered already: everything simple, numeric tolerances, dtypes, hidden state, size-dependent fast paths, "
+          "truthiness slips, enum/dispatch drift, helper drift, translation/scaling, smallest inputs, extreme option values, "
+          "interfaces between stages. This round's theme: WELL-MEANT HARDENING that changes behaviour on valid inputs - input "
+          "normalisation or validation added at a function's entry (np.asarray with a dtype, sorting by x, dropping duplicate or "
+          "non-finite samples, rounding, clipping to a range, copying only sometimes), an over-correcting bug fix (abs(), max(0, .), "
+          "np.nan_to_num, a try/except that swallows an error and returns a default, deduplicating or re-sorting a result 'to be "
+          "safe'), or a compatibility shim for a newer numpy (a deprecated call replaced by its documented successor whose "
+          "semantics differ in a corner). It must look like a commit a reviewer could approve, keep the suite at 98 passed, and "
+          "need something specific - but VALID and inside the property's quantifier - to manifest."),
 }[rnd]
 props = [json.loads(l) for l in open("/verif/properties.jsonl")]
 for p in props:
